@@ -228,6 +228,9 @@ pub struct World {
     /// the next this-many `poll_ready` calls on any probe of this world fail with class 6 (set by the
     /// director: a backend whose readiness fails for a moment and then recovers)
     pub ready_faults: AtomicU64,
+    /// non-zero: the standard caller actors drop their service value as soon as the call future exists
+    /// (`clone().oneshot(req)` style), whatever their other habits are
+    pub oneshot_style: AtomicU64,
 }
 
 impl World {
@@ -240,6 +243,7 @@ impl World {
             std0: std::time::Instant::now(),
             habits: AtomicU64::new(0),
             ready_faults: AtomicU64::new(0),
+            oneshot_style: AtomicU64::new(0),
             st: Mutex::new(Inner {
                 log: Vec::new(),
                 seq: 0,
